@@ -339,7 +339,8 @@ def property_anchor_files(prop: str) -> List[str]:
              'C18': ['panqec/error_models/_pauli_error_model.py'],
              'C17': ['panqec/simulation/_base_simulation.py', 'panqec/simulation/_batch_simulation.py',
                      'panqec/analysis.py'],
-             'C20': ['panqec/decoders/base/_base_decoder.py']}
+             'C20': ['panqec/decoders/base/_base_decoder.py'] + sorted(
+                 str(f.relative_to(REPO)) for f in (REPO / 'panqec' / 'codes').glob('*/_*_code.py'))}
     return sorted(set(files + extra.get(prop, [])))
 
 
